@@ -19,15 +19,15 @@ func init() {
 	const fm = "app/eth2wrap/multi.go"
 	Register(&Prop{
 		ID: "C19",
-		Decides: "app/eth2wrap multi client: (Y1) the fork-join of provide is created without fail-fast, with one worker per node of the list it runs, runs the caller's work function, " +
-			"does not wait for stragglers on cancel, and every node of the list is forked before joining; " +
-			"(Y2) inside the loop over the join results the only nil-error return hands back the current result's output, on the edge where the caller's context is live, the result has no error and " +
-			"isSuccessFunc accepted it; the loop is left only by such a return, a context-error return or exhaustion of the results; a node's failure is returned only after the loop, " +
-			"behind a context test, and is the recorded failing result; " +
+		Decides: "app/eth2wrap multi client: (Y1) the fork-join of provide (created in a literal of provide or in an in-package function provide calls once per node list) is created on the caller's context without fail-fast, " +
+			"with one worker per node of the list it runs, runs the caller's work function, does not wait for stragglers on cancel, and every node of the list (from the first) is forked before joining; " +
+			"(Y2) for every valuation of (caller context live, result error nil, isSuccessFunc accepts) the body of the loop over the join results returns ctx.Err() when the context is cancelled, returns the current result's output with nil error " +
+			"exactly when the result has no error and was accepted, and otherwise records the result (in a result variable, a slice of results or a pointer to a copy) and goes on to the next result; after the loop, behind a context test, " +
+			"the recorded failing result's output and error are returned; conditions extracted into boolean closures / in-package functions are followed; " +
 			"(Y3) the fork-join runs first over the primary list, and over the fallback list exactly when the primary error is non-nil, the fallback list is non-empty and " +
-			"isTimeoutError || isSyncingError || isBadGateway holds for that error; each run's result is what provide returns; submit delegates to provide with its own lists and work function; " +
-			"(Y4) every method of multi other than the nine listed node-management helpers makes exactly one provide/submit call with the receiver's clients and fallbacks, whose work function " +
-			"calls the same-named method of args.client exactly once and returns its results, and returns the outcome (error possibly wrapped); nothing else reads multi.clients / multi.fallbacks.",
+			"isTimeoutError || isSyncingError || isBadGateway holds for that error (decided over all valuations, following boolean helpers); each run's result is what provide returns; submit delegates to provide with its own lists and work function; " +
+			"(Y4) every method of multi other than the nine listed node-management helpers makes exactly one provide/submit call (itself, or through one in-package helper it hands its receiver to) with the receiver's clients and fallbacks, whose work function " +
+			"calls the same-named method of args.client exactly once per execution and returns its results, never reports success without having called the node, and the method returns the outcome (error possibly wrapped); nothing else reads multi.clients / multi.fallbacks.",
 		NotDecided: "latency and completion orders at run time, scheduling inside forkjoin (goroutines, channel closing), the error-class string/errno tables of the three classifiers, " +
 			"behaviour of the individual node clients (lazy, httpAdapter), which of several successful answers wins.",
 		Run: c19,
@@ -47,7 +47,18 @@ func init() {
 				Old: "\t\tfor _, client := range clients {\n\t\t\tfork(", New: "\t\tfor _, client := range clients[:1] {\n\t\t\tfork("},
 			{ID: "C19-Y1-fork-break", File: fw, Expect: "Y1|fork",
 				Old: "\t\t\tfork(provideArgs{client: client})\n", New: "\t\t\tfork(provideArgs{client: client})\n\n\t\t\tif ctx.Err() == nil {\n\t\t\t\tbreak\n\t\t\t}\n"},
+			{ID: "C19-Y1-fork-skips-first-node", File: fw, Expect: "Y1|fork",
+				Old: "\t\tfor _, client := range clients {\n\t\t\tfork(provideArgs{client: client})\n\t\t}\n",
+				New: "\t\tfor i := 1; i < len(clients); i++ {\n\t\t\tfork(provideArgs{client: clients[i]})\n\t\t}\n"},
+			{ID: "C19-Y1-detached-context", File: fw, Expect: "Y1|work function",
+				Old: "forkjoin.New(ctx, work,", New: "forkjoin.New(context.WithoutCancel(ctx), work,"},
 			// Y2
+			{ID: "C19-Y2-failure-output-dropped", File: fw, Expect: "Y2|in-loop failure handling",
+				Old: "\t\t\tnokResp = res\n", New: "\t\t\tnokResp = forkjoin.Result[provideArgs, O]{Err: res.Err}\n"},
+			{ID: "C19-Y2-failure-replaced-by-generic-error", File: fw, Expect: "Y2|after-loop",
+				Old: "\t\treturn nokResp.Output, nokResp.Err\n", New: "\t\treturn nokResp.Output, errors.New(\"all beacon nodes failed\")\n"},
+			{ID: "C19-Y2-success-closure-or", File: fw, Expect: "Y2|success return",
+				Old: "res.Err == nil && isSuccessFunc(res.Output)", New: "func() bool { return res.Err == nil || isSuccessFunc(res.Output) }()"},
 			{ID: "C19-Y2-success-after-loop", File: fw, Expect: "Y2|success return",
 				Old: "\t\t\t\treturn res.Output, nil\n", New: "\t\t\t\tnokResp, hasNokResp = res, true\n\n\t\t\t\tcontinue\n"},
 			{ID: "C19-Y2-fail-on-first-error", File: fw, Expect: "Y2|in-loop failure handling",
@@ -79,6 +90,8 @@ func init() {
 				Old: "isTimeoutError(err) || isSyncingError(err)", New: "isTimeoutError(err) && isSyncingError(err)"},
 			{ID: "C19-Y3-negated-classifier", File: fw, Expect: "Y3",
 				Old: "|| isBadGateway(err))", New: "|| !isBadGateway(err))"},
+			{ID: "C19-Y3-classifier-closure-drops-syncing", File: fw, Expect: "Y3|isSyncingError",
+				Old: "(isTimeoutError(err) || isSyncingError(err) || isBadGateway(err))", New: "func() bool { return isTimeoutError(err) || isBadGateway(err) }()"},
 			{ID: "C19-Y3-two-fallbacks-needed", File: fw, Expect: "Y3|guards",
 				Old: "len(fallbacks) != 0", New: "len(fallbacks) > 1"},
 			{ID: "C19-Y3-extra-condition", File: fw, Expect: "Y3|guards",
@@ -103,6 +116,15 @@ func init() {
 				Old: "\t)\n\n\treturn res0, err\n}", New: "\t)\n\t_ = err\n\n\treturn res0, nil\n}"},
 			{ID: "C19-Y4-unregistered-direct-use", File: fm, Expect: "Y4|FirstAddress",
 				Old: "func (multi) Name() string {", New: "func (m multi) FirstAddress() string { return m.clients[0].Address() }\n\nfunc (multi) Name() string {"},
+			{ID: "C19-Y4-work-success-without-node", File: fg, Expect: "Y4|multi.AttestationData",
+				Old: "\t\t\treturn args.client.AttestationData(ctx, opts)\n",
+				New: "\t\t\tif opts == nil {\n\t\t\t\treturn nil, nil\n\t\t\t}\n\n\t\t\treturn args.client.AttestationData(ctx, opts)\n"},
+			{ID: "C19-Y4-method-success-without-node", File: fm, Expect: "Y4|multi.Proxy",
+				Old: "\tres0, err := provide(ctx, m.clients, m.fallbacks,\n\t\tfunc(ctx context.Context, args provideArgs) (*http.Response, error) {",
+				New: "\tif req.URL == nil {\n\t\treturn nil, nil\n\t}\n\n\tres0, err := provide(ctx, m.clients, m.fallbacks,\n\t\tfunc(ctx context.Context, args provideArgs) (*http.Response, error) {"},
+			{ID: "C19-Y4-exclusive-branch-other-method", File: fg, Expect: "Y4|multi.Domain",
+				Old: "\t\t\treturn args.client.Domain(ctx, domainType, epoch)\n",
+				New: "\t\t\tif epoch == 0 {\n\t\t\t\treturn args.client.GenesisDomain(ctx, domainType)\n\t\t\t}\n\n\t\t\treturn args.client.Domain(ctx, domainType, epoch)\n"},
 			{ID: "C19-Y4-called-twice", File: fg, Expect: "Y4|multi.SubmitAttestations",
 				Old: "\t\t\treturn args.client.SubmitAttestations(ctx, opts)\n",
 				New: "\t\t\tif err := args.client.SubmitAttestations(ctx, opts); err != nil {\n\t\t\t\treturn err\n\t\t\t}\n\n\t\t\treturn args.client.SubmitAttestations(ctx, opts)\n"},
@@ -257,16 +279,6 @@ func c19Only(v, target ssa.Value) bool {
 		}
 	}
 	return true
-}
-
-// c19Has: some origin of v is target.
-func c19Has(v, target ssa.Value) bool {
-	for _, o := range c19Origins(v) {
-		if o == target {
-			return true
-		}
-	}
-	return false
 }
 
 // c19RetVals returns the values a return statement hands back, looking through the result spill
@@ -471,15 +483,6 @@ func c19LenArg(v ssa.Value) ssa.Value {
 	return nil
 }
 
-// c19IsCtxErr: v is the result of ctx.Err() on the given context value.
-func c19IsCtxErr(v ssa.Value, ctx ssa.Value) bool {
-	call, ok := an.Unwrap(v).(*ssa.Call)
-	if !ok || !an.Invoke("context.Context.Err")(&call.Call) {
-		return false
-	}
-	return c19Only(call.Call.Value, ctx)
-}
-
 // c19Extract returns the Extract #idx of a tuple-valued call (nil if the component is discarded).
 func c19Extract(call ssa.CallInstruction, idx int) ssa.Value {
 	v := call.Value()
@@ -563,28 +566,80 @@ func c19OnEdge(fn *ssa.Function, e ssa.Value, wantNil bool, target *ssa.BasicBlo
 	return false
 }
 
+// c19Src is the outcome (answers..., err) of one call.
+type c19Src struct {
+	answers []ssa.Value
+	err     ssa.Value
+}
+
 // c19Outcome decides whether return r hands back the outcome (answers..., err) of a call: the error
 // (possibly wrapped; a literal nil only on the edge where the error was tested nil) and, unless the
 // return lies on the error's non-nil edge, the answers.
 func c19Outcome(r *ssa.Return, answers []ssa.Value, errv ssa.Value) (bool, string) {
-	vals := c19RetVals(r)
-	if len(vals) != len(answers)+1 {
+	return c19OutcomeOf(c19RetVals(r), r.Block(), []c19Src{{answers, errv}}, 0)
+}
+
+// c19OutcomeOf: the values vals, available at the end of block at, are the outcome of one of the calls in
+// srcs. Values merged from several paths (phis of one block) are decided per incoming edge, so that
+// `if a { x, err = call1() } else { x, err = call2() }; return x, err` is the outcome of call1 or call2.
+func c19OutcomeOf(vals []ssa.Value, at *ssa.BasicBlock, srcs []c19Src, d int) (bool, string) {
+	what := "result count"
+	for _, src := range srcs {
+		ok, w := c19OutcomeOne(vals, at, src)
+		if ok {
+			return true, ""
+		}
+		what = w
+	}
+	if d > 4 {
+		return false, what
+	}
+	// split the phis of one block by incoming edge
+	var blk *ssa.BasicBlock
+	for _, v := range vals {
+		if ph, ok := an.Unwrap(v).(*ssa.Phi); ok && len(ph.Edges) > 1 {
+			// take the innermost (latest) merge point first
+			if blk == nil || blk.Dominates(ph.Block()) {
+				blk = ph.Block()
+			}
+		}
+	}
+	if blk == nil {
+		return false, what
+	}
+	for i, pred := range blk.Preds {
+		sub := make([]ssa.Value, len(vals))
+		for j, v := range vals {
+			sub[j] = v
+			if ph, ok := an.Unwrap(v).(*ssa.Phi); ok && ph.Block() == blk && i < len(ph.Edges) {
+				sub[j] = ph.Edges[i]
+			}
+		}
+		if ok, w := c19OutcomeOf(sub, pred, srcs, d+1); !ok {
+			return false, w
+		}
+	}
+	return true, ""
+}
+
+func c19OutcomeOne(vals []ssa.Value, at *ssa.BasicBlock, src c19Src) (bool, string) {
+	if len(vals) != len(src.answers)+1 {
 		return false, "result count"
 	}
-	fn := r.Parent()
+	fn := at.Parent()
 	ev := vals[len(vals)-1]
 	failing := false
 	switch {
 	case an.IsNilConst(ev):
-		if !c19OnEdge(fn, errv, true, r.Block()) {
+		if !c19OnEdge(fn, src.err, true, at) {
 			return false, "error"
 		}
-	case c19Derived(ev, errv, true, 0):
-		failing = c19OnEdge(fn, errv, false, r.Block())
+	case c19Derived(ev, src.err, true, 0):
+		failing = c19OnEdge(fn, src.err, false, at)
 	default:
 		return false, "error"
 	}
-	for i, a := range answers {
+	for i, a := range src.answers {
 		if !failing && !c19Derived(vals[i], a, false, 0) {
 			return false, "answer"
 		}
@@ -592,27 +647,36 @@ func c19Outcome(r *ssa.Return, answers []ssa.Value, errv ssa.Value) (bool, strin
 	return true, ""
 }
 
-// c19Shape is the resolved skeleton of provide.
+// c19Shape is the resolved skeleton of provide: the function that creates the fork-join (`run`: a
+// literal of provide, or an in-package function that provide calls with its own parameters), how the
+// roles (caller context, work function, success predicate, node list) are visible inside run, and the
+// calls of run in provide.
 type c19Shape struct {
 	provide                                 *ssa.Function
 	ctx, clients, fallbacks, work, isSucces *ssa.Parameter
-	run                                     *ssa.Function // the fork-join closure (runForkJoin)
+	run                                     *ssa.Function // the function that calls forkjoin.New (runForkJoin)
+	closure                                 bool          // run is a function literal of provide
 	newCall                                 ssa.CallInstruction
+	list                                    *ssa.Parameter // run's own node-list parameter
+	listIdx                                 int
+	runCalls                                []*ssa.Call // the calls of run made by provide itself
+	strayCalls                              []ssa.CallInstruction
 }
 
-func c19Resolve(c *rt.Ctx) c19Shape {
-	var s c19Shape
+func c19IsClientList(t types.Type) bool {
+	sl, ok := t.Underlying().(*types.Slice)
+	return ok && an.TypeName(sl.Elem()) == c19Client
+}
+
+func c19Resolve(c *rt.Ctx) *c19Shape {
+	s := &c19Shape{}
 	s.provide = c.Fn(c19Provide)
 	ps := s.provide.Params
 	if len(ps) != 6 {
 		c.Bail("provide: expected 6 parameters (ctx, clients, fallbacks, work, isSuccessFunc, bestSelector), found %d", len(ps))
 	}
 	s.ctx, s.clients, s.fallbacks, s.work, s.isSucces = ps[0], ps[1], ps[2], ps[3], ps[4]
-	isClients := func(t types.Type) bool {
-		sl, ok := t.Underlying().(*types.Slice)
-		return ok && an.TypeName(sl.Elem()) == c19Client
-	}
-	if an.TypeName(s.ctx.Type()) != "context.Context" || !isClients(s.clients.Type()) || !isClients(s.fallbacks.Type()) {
+	if an.TypeName(s.ctx.Type()) != "context.Context" || !c19IsClientList(s.clients.Type()) || !c19IsClientList(s.fallbacks.Type()) {
 		c.Bail("provide: parameters are not (context.Context, []Client, []Client, ...)")
 	}
 	if sig, ok := s.isSucces.Type().Underlying().(*types.Signature); !ok || sig.Results().Len() != 1 || sig.Params().Len() != 1 ||
@@ -622,9 +686,168 @@ func c19Resolve(c *rt.Ctx) c19Shape {
 	if _, ok := s.work.Type().Underlying().(*types.Signature); !ok {
 		c.Bail("provide: parameter 3 is not the work function")
 	}
-	s.newCall = c.OneCall(s.provide, an.Static(c19FJ+".New"), "forkjoin.New", true)
+	isNew := an.Static(c19FJ + ".New")
+	news := an.Calls(s.provide, isNew, true)
+	if len(news) == 0 {
+		// the fork-join may live in an in-package function that provide (or one of its literals) calls
+		seen := map[*ssa.Function]bool{}
+		for _, in := range an.Instrs(s.provide, true) {
+			ci, ok := in.(ssa.CallInstruction)
+			if !ok || ci.Common().IsInvoke() {
+				continue
+			}
+			callee := an.Orig(ci.Common().StaticCallee())
+			if callee == nil || callee.Pkg != s.provide.Pkg || len(callee.Blocks) == 0 || callee.Parent() != nil || seen[callee] {
+				continue
+			}
+			seen[callee] = true
+			news = append(news, an.Calls(callee, isNew, true)...)
+		}
+	}
+	if len(news) != 1 {
+		c.Bail("expected exactly one call to forkjoin.New in %s (or in a function it calls), found %d", an.FuncName(s.provide), len(news))
+	}
+	s.newCall = news[0]
 	s.run = s.newCall.Parent()
+	switch {
+	case s.run == s.provide:
+		c.Bail("forkjoin.New is called by provide itself, not by a function run once per node list (runForkJoin(list))")
+	case s.run.Parent() == s.provide:
+		s.closure = true
+	case s.run.Parent() != nil:
+		c.Bail("the function calling forkjoin.New (%s) is a nested literal: not followed", an.FuncName(s.run))
+	}
+	s.listIdx = -1
+	for i, p := range s.run.Params {
+		if c19IsClientList(p.Type()) {
+			if s.listIdx >= 0 {
+				c.Bail("%s takes more than one node list", an.FuncName(s.run))
+			}
+			s.listIdx, s.list = i, p
+		}
+	}
+	if s.list == nil {
+		c.Bail("the function calling forkjoin.New (%s) takes no node list parameter (runForkJoin(list))", an.FuncName(s.run))
+	}
+	// the calls of run
+	var mc ssa.Value
+	if s.closure {
+		for _, in := range an.Instrs(s.provide, false) {
+			if m, ok := in.(*ssa.MakeClosure); ok && m.Fn == ssa.Value(s.run) {
+				if mc != nil {
+					c.Bail("the runForkJoin literal is instantiated more than once")
+				}
+				mc = m
+			}
+		}
+		if mc == nil {
+			c.Bail("the runForkJoin literal is not created in provide")
+		}
+	}
+	for _, in := range an.Instrs(s.provide, true) {
+		ci, ok := in.(ssa.CallInstruction)
+		if !ok {
+			continue
+		}
+		if s.closure {
+			if !c19Only(ci.Common().Value, mc) {
+				continue
+			}
+		} else if ci.Common().IsInvoke() || an.Orig(ci.Common().StaticCallee()) != s.run {
+			continue
+		}
+		call, isCall := ci.(*ssa.Call)
+		if !isCall || call.Parent() != s.provide || len(call.Call.Args) != len(s.run.Params) {
+			s.strayCalls = append(s.strayCalls, ci)
+			continue
+		}
+		s.runCalls = append(s.runCalls, call)
+	}
+	if len(s.runCalls) == 0 {
+		c.Bail("provide never calls %s", an.FuncName(s.run))
+	}
 	return s
+}
+
+// expand maps origins found inside run to the level of provide: parameters of an extracted run function are
+// replaced by what provide passes for them.
+func (s *c19Shape) expand(base []ssa.Value) []ssa.Value {
+	if s.closure {
+		return base
+	}
+	var out []ssa.Value
+	for _, o := range base {
+		p, ok := o.(*ssa.Parameter)
+		if !ok || p.Parent() != s.run || p == s.list {
+			out = append(out, o)
+			continue
+		}
+		idx := -1
+		for i, q := range s.run.Params {
+			if q == p {
+				idx = i
+			}
+		}
+		for _, rc := range s.runCalls {
+			out = append(out, c19Origins(rc.Call.Args[idx])...)
+		}
+		for range s.strayCalls {
+			out = append(out, nil) // unknown argument
+		}
+	}
+	return out
+}
+
+// origins resolves a value used inside run (or provide, or - with a walker - a helper followed from there)
+// to the values it may hold at the level of provide.
+func (s *c19Shape) origins(w *c19Walker, v ssa.Value) []ssa.Value {
+	if w != nil {
+		return s.expand(w.origins(v))
+	}
+	return s.expand(c19Origins(v))
+}
+
+// only: every origin of v is target; has: some origin is.
+func (s *c19Shape) only(w *c19Walker, v, target ssa.Value) bool {
+	os := s.origins(w, v)
+	if len(os) == 0 {
+		return false
+	}
+	for _, o := range os {
+		if o != target {
+			return false
+		}
+	}
+	return true
+}
+
+func (s *c19Shape) has(w *c19Walker, v, target ssa.Value) bool {
+	for _, o := range s.origins(w, v) {
+		if o == target {
+			return true
+		}
+	}
+	return false
+}
+
+// isCtxErr: v is the result of Err() on the caller's context.
+func (s *c19Shape) isCtxErr(w *c19Walker, v ssa.Value) bool {
+	var call *ssa.Call
+	if w != nil {
+		for _, o := range w.origins(v) {
+			cl, ok := o.(*ssa.Call)
+			if !ok || (call != nil && cl != call) {
+				return false
+			}
+			call = cl
+		}
+	} else {
+		call, _ = an.Unwrap(v).(*ssa.Call)
+	}
+	if call == nil || !an.Invoke("context.Context.Err")(&call.Call) {
+		return false
+	}
+	return s.only(w, call.Call.Value, s.ctx)
 }
 
 // ---------------------------------------------------------------------------------------------
@@ -636,26 +859,18 @@ func c19(c *rt.Ctx) {
 	c.Rule("Y4", 55, func() { c19Y4(c) })
 }
 
-// c19ForkedList returns the list runForkJoin works on: its own slice-of-Client parameter.
-func c19ForkedList(c *rt.Ctx, s c19Shape) ssa.Value {
-	if s.run == s.provide || len(s.run.Params) != 1 {
-		c.Bail("the function calling forkjoin.New is not a one-parameter closure of provide (runForkJoin(list))")
-	}
-	return s.run.Params[0]
-}
-
 func c19Y1(c *rt.Ctx) {
 	s := c19Resolve(c)
-	list := c19ForkedList(c, s)
+	list := ssa.Value(s.list)
 	run := s.run
 	args := s.newCall.Common().Args
 	if len(args) != 3 {
 		c.Bail("forkjoin.New: unexpected argument count %d", len(args))
 	}
 	pos := s.newCall.Pos()
-	c.Check("provide forkjoin.New runs the caller's work function", pos, c19Only(args[1], s.work),
-		"the work function handed to forkjoin.New is not provide's work parameter")
-	opts, ok := c19SliceLit(args[2])
+	c.Check("provide forkjoin.New runs the caller's work function", pos, s.only(nil, args[1], s.work) && s.only(nil, args[0], s.ctx),
+		"the context / work function handed to forkjoin.New are not provide's ctx and work parameters")
+	opts, ok := c19SliceLit(an.Resolve(args[2]))
 	if !ok {
 		c.Unsure("provide forkjoin.New options", pos, "options are not a literal argument list")
 		return
@@ -663,7 +878,7 @@ func c19Y1(c *rt.Ctx) {
 	var noFF, waitCancel bool
 	var workers []*ssa.Call
 	for _, o := range opts {
-		call, isCall := an.Unwrap(o).(*ssa.Call)
+		call, isCall := an.Resolve(o).(*ssa.Call)
 		if !isCall || call.Call.StaticCallee() == nil {
 			c.Unsure("provide forkjoin.New options", pos, "an option is not a direct call of a forkjoin option constructor")
 			return
@@ -686,7 +901,7 @@ func c19Y1(c *rt.Ctx) {
 		"forkjoin.New is created with fail-fast on: the first node error cancels the requests still running on the other nodes")
 	wok, why := len(workers) > 0, "no WithWorkers option: the default of 8 workers makes nodes beyond the eighth wait for earlier (possibly hung) ones"
 	for _, w := range workers {
-		if x := c19LenArg(w.Call.Args[0]); x == nil || x != list {
+		if x := c19LenArg(an.Resolve(w.Call.Args[0])); x == nil || !c19Only(x, list) {
 			wok, why = false, "WithWorkers is not len(list) of the very list that is forked: nodes may queue behind slow or hung ones"
 		}
 	}
@@ -719,8 +934,10 @@ func c19Y1(c *rt.Ctx) {
 	switch {
 	case l == nil:
 		good, why = false, "fork is not called in a loop over the node list"
-	case l.RangeColl() != list:
+	case l.RangeColl() == nil || !c19Only(l.RangeColl(), list):
 		good, why = false, "the fork loop does not range over the whole node list handed to runForkJoin"
+	case !c19LoopFromStart(l):
+		good, why = false, "the fork loop does not start at the first node of the list"
 	default:
 		for _, la := range l.Latches {
 			if !fk.Block().Dominates(la) {
@@ -740,19 +957,8 @@ func c19Y1(c *rt.Ctx) {
 		// the forked input carries the loop element as client
 		elemOK := false
 		if len(fk.Common().Args) == 1 {
-			arg := an.Unwrap(fk.Common().Args[0])
-			if ld, ok := arg.(*ssa.UnOp); ok && ld.Op == token.MUL {
-				if al, ok := ld.X.(*ssa.Alloc); ok {
-					for _, ref := range *al.Referrers() {
-						if fa, ok := ref.(*ssa.FieldAddr); ok && an.FieldKey(fa.X.Type(), fa.Field) == c19ArgCl {
-							for _, r2 := range *fa.Referrers() {
-								if st, ok := r2.(*ssa.Store); ok && st.Addr == ssa.Value(fa) && l.ElemOf(st.Val) {
-									elemOK = true
-								}
-							}
-						}
-					}
-				}
+			if v := c19LitField(fk.Common().Args[0], c19ArgCl); v != nil && c19LoopElem(l, v) {
+				elemOK = true
 			}
 		}
 		if good && !elemOK {
@@ -762,13 +968,96 @@ func c19Y1(c *rt.Ctx) {
 	c.Check("runForkJoin fork every node then join", fk.Pos(), good, why)
 }
 
+// c19LitField returns the value stored into the named field of the struct literal / local whose value v is
+// (nil if not exactly one store).
+func c19LitField(v ssa.Value, key string) ssa.Value {
+	ld, ok := an.Unwrap(v).(*ssa.UnOp)
+	if !ok || ld.Op != token.MUL {
+		return nil
+	}
+	al, ok := ld.X.(*ssa.Alloc)
+	if !ok {
+		return nil
+	}
+	var out ssa.Value
+	n := 0
+	for _, ref := range *al.Referrers() {
+		switch r := ref.(type) {
+		case *ssa.FieldAddr:
+			if an.FieldKey(r.X.Type(), r.Field) != key {
+				continue
+			}
+			for _, r2 := range *r.Referrers() {
+				if st, ok := r2.(*ssa.Store); ok && st.Addr == ssa.Value(r) {
+					out = st.Val
+					n++
+				}
+			}
+		case *ssa.Store:
+			if r.Addr == ssa.Value(al) { // whole-struct copy from another literal
+				if inner := c19LitField(r.Val, key); inner != nil {
+					out = inner
+					n++
+				} else {
+					n += 2
+				}
+			}
+		}
+	}
+	if n != 1 {
+		return nil
+	}
+	return out
+}
+
+// c19LoopElem: v is the element of the collection loop l ranges over in the current iteration (possibly
+// kept in a local declared inside the loop).
+func c19LoopElem(l *an.Loop, v ssa.Value) bool {
+	if l.ElemOf(v) {
+		return true
+	}
+	for _, o := range c19Origins(v) {
+		if o == v || !l.ElemOf(o) {
+			return false
+		}
+	}
+	return true
+}
+
+// c19LoopFromStart: an index loop starts at 0 (range loops always do).
+func c19LoopFromStart(l *an.Loop) bool {
+	for _, in := range l.Header.Instrs {
+		iff, ok := in.(*ssa.If)
+		if !ok {
+			continue
+		}
+		bin, ok := iff.Cond.(*ssa.BinOp)
+		if !ok {
+			return true
+		}
+		phi, ok := bin.X.(*ssa.Phi)
+		if !ok || phi.Block() != l.Header {
+			return true // `range` form: idx = phi + 1 compared, starting from -1
+		}
+		for i, e := range phi.Edges {
+			if l.Body[l.Header.Preds[i]] {
+				continue
+			}
+			if k, isK := an.ConstInt(e); !isK || k != 0 {
+				return false
+			}
+		}
+	}
+	return true
+}
+
 // c19Loop is the resolved result loop of runForkJoin.
 type c19Loop struct {
 	hdr, body, exit *ssa.BasicBlock
 	elem            ssa.Value // the Result received in this iteration
 }
 
-func c19ResultLoop(c *rt.Ctx, s c19Shape) c19Loop {
+func c19ResultLoop(c *rt.Ctx, s *c19Shape) c19Loop {
 	join := c19Extract(s.newCall, 1)
 	if join == nil {
 		c.Bail("join result of forkjoin.New is discarded")
@@ -792,7 +1081,7 @@ func c19ResultLoop(c *rt.Ctx, s c19Shape) c19Loop {
 			continue
 		}
 		if out.hdr != nil || !rc.CommaOk {
-			c.Bail("join results are not consumed by exactly one range loop")
+			c.Bail("join results are not consumed by exactly one receive loop (`for res := range join()`)")
 		}
 		iff := c19If(rc.Block())
 		var okv, elem ssa.Value
@@ -805,33 +1094,96 @@ func c19ResultLoop(c *rt.Ctx, s c19Shape) c19Loop {
 				}
 			}
 		}
-		if iff == nil || okv == nil || elem == nil || iff.Cond != okv {
-			c.Bail("receive from the join results is not the header of a range loop")
+		if iff == nil || okv == nil || elem == nil {
+			c.Bail("receive from the join results is not the header of a loop")
 		}
-		out = c19Loop{hdr: rc.Block(), body: rc.Block().Succs[0], exit: rc.Block().Succs[1], elem: elem}
+		tested, trueIdx := c19BoolTest(iff)
+		if tested != okv {
+			c.Bail("the loop receiving the join results is not controlled by the channel's ok flag")
+		}
+		out = c19Loop{hdr: rc.Block(), body: rc.Block().Succs[trueIdx], exit: rc.Block().Succs[1-trueIdx], elem: elem}
 	}
 	if out.hdr == nil {
-		c.Bail("no range loop over the join results found in runForkJoin")
+		c.Bail("no loop over the join results found in runForkJoin")
 	}
 	if !out.hdr.Dominates(out.body) || !out.hdr.Dominates(out.exit) || out.body == out.exit {
-		c.Bail("unexpected shape of the range loop over the join results")
+		c.Bail("unexpected shape of the loop over the join results")
 	}
 	return out
 }
 
-// isRes: v reads field `name` of the Result received in this iteration.
-func (l c19Loop) resField(v ssa.Value, name string) bool {
+// resField: v reads field `name` of the Result received in this iteration (w: the walker's frame when the
+// read happens inside a followed helper).
+func (l c19Loop) resField(w *c19Walker, v ssa.Value, name string) bool {
 	key, base, ok := c19FieldRead(v)
-	if !ok || !strings.HasSuffix(key, "."+name) || !strings.HasPrefix(key, c19FJ+".Result") {
+	if !ok || !c19ResultKey(key, name) {
 		return false
 	}
 	if base == l.elem {
 		return true
 	}
+	if w != nil && len(w.bind) > 0 && w.only(base, l.elem) {
+		return true
+	}
+	// a pointer to a copy of the current result, selected by the path walked so far (`winner = &res; break`)
+	if w != nil && w.from != nil {
+		b := base
+		for i := 0; i < 6; i++ {
+			switch x := b.(type) {
+			case *ssa.Phi:
+				if e := w.phiEdge(x); e != nil {
+					b = an.Unwrap(e)
+					continue
+				}
+			case *ssa.UnOp:
+				if cell, ok := c19Cell(x.X).(*ssa.Alloc); ok && x.Op == token.MUL && !l.perIteration(cell) {
+					var last ssa.Value
+					for _, pb := range w.path {
+						for _, in := range pb.Instrs {
+							if st, ok := in.(*ssa.Store); ok && c19Cell(st.Addr) == ssa.Value(cell) {
+								last = st.Val
+							}
+						}
+					}
+					if last != nil {
+						b = an.Unwrap(last)
+						continue
+					}
+				}
+			}
+			break
+		}
+		if b != base && l.copyOfCur(b) {
+			for _, pb := range w.path {
+				if pb == b.(*ssa.Alloc).Block() {
+					return true
+				}
+			}
+		}
+	}
 	// a per-iteration copy: a variable declared inside the loop body (a variable declared outside
 	// may still hold the result of an earlier iteration)
 	al, isAl := base.(*ssa.Alloc)
-	return isAl && l.inLoop(al.Block()) && c19HoldsOnly(al, l.elem)
+	if isAl && w != nil && len(w.bind) > 0 && al.Parent() != l.hdr.Parent() {
+		// a parameter of a followed helper spilled to a local
+		st := c19StoresTo(al, 0)
+		if len(st) == 0 {
+			return false
+		}
+		for _, sv := range st {
+			if !w.only(sv, l.elem) {
+				return false
+			}
+		}
+		return true
+	}
+	return isAl && al.Parent() == l.hdr.Parent() && l.perIteration(al) && c19HoldsOnly(al, l.elem)
+}
+
+// perIteration: the variable is declared inside the loop (header or body), i.e. it is a fresh variable in
+// every iteration.
+func (l c19Loop) perIteration(al *ssa.Alloc) bool {
+	return al.Block() == l.hdr || l.inLoop(al.Block())
 }
 
 func (l c19Loop) inLoop(b *ssa.BasicBlock) bool { return l.body.Dominates(b) }
@@ -844,19 +1196,64 @@ func (l c19Loop) after(b *ssa.BasicBlock) bool  { return l.exit.Dominates(b) && 
 // followed. The verdict is the set of outcomes reachable under each valuation.
 
 type c19Walker struct {
-	atom    func(v ssa.Value) (id int, neg bool, ok bool) // recognise an atomic condition
-	val     []bool                                        // truth of the atoms
+	atom    func(w *c19Walker, v ssa.Value) (id int, neg bool, ok bool) // recognise an atomic condition
+	val     []bool                                                      // truth of the atoms
 	stop    func(b *ssa.BasicBlock, w *c19Walker) (string, bool)
 	ret     func(r *ssa.Return, w *c19Walker) string
 	from    map[*ssa.BasicBlock]*ssa.BasicBlock // predecessor through which each block of the path was entered
 	path    []*ssa.BasicBlock
 	out     map[string]bool
-	unknown map[*ssa.If]bool // conditions that could not be evaluated (both edges followed)
+	unknown map[*ssa.If]bool             // conditions that could not be evaluated (both edges followed)
+	bind    map[*ssa.Parameter]ssa.Value // inside a followed callee: parameter -> argument at the call site
+	depth   int
+	steps   int
+	pre     func(w *c19Walker, v ssa.Value) (val bool, ok bool) // optional: decides a condition directly (before the atoms)
+}
+
+// origins resolves v like c19Origins and replaces parameters of followed callees by the call's arguments.
+func (w *c19Walker) origins(v ssa.Value) []ssa.Value {
+	return c19Subst(c19Origins(v), w.bind, 0)
+}
+
+func c19Subst(os []ssa.Value, bind map[*ssa.Parameter]ssa.Value, d int) []ssa.Value {
+	if len(bind) == 0 || d > 4 {
+		return os
+	}
+	var out []ssa.Value
+	for _, o := range os {
+		if p, ok := o.(*ssa.Parameter); ok {
+			if a, bound := bind[p]; bound {
+				out = append(out, c19Subst(c19Origins(a), bind, d+1)...)
+				continue
+			}
+		}
+		out = append(out, o)
+	}
+	return out
+}
+
+// only: every origin of v (seen from the walker's frame) is target.
+func (w *c19Walker) only(v, target ssa.Value) bool {
+	os := w.origins(v)
+	if len(os) == 0 {
+		return false
+	}
+	for _, o := range os {
+		if o != target {
+			return false
+		}
+	}
+	return true
 }
 
 func (w *c19Walker) eval(v ssa.Value, d int) (bool, bool) {
 	if d > 8 {
 		return false, false
+	}
+	if w.pre != nil {
+		if b, ok := w.pre(w, v); ok {
+			return b, true
+		}
 	}
 	switch x := v.(type) {
 	case *ssa.Const:
@@ -869,27 +1266,118 @@ func (w *c19Walker) eval(v ssa.Value, d int) (bool, bool) {
 			b, ok := w.eval(x.X, d+1)
 			return !b, ok
 		}
-	case *ssa.Phi:
-		pred := w.from[x.Block()]
-		if pred == nil {
-			return false, false
-		}
-		idx := -1
-		for i, p := range x.Block().Preds {
-			if p == pred {
-				if idx >= 0 {
-					return false, false
+		if x.Op == token.MUL && types.Identical(x.Type().Underlying(), types.Typ[types.Bool]) {
+			// a named condition kept in a variable cell that is assigned once
+			if al, ok := c19Cell(x.X).(*ssa.Alloc); ok {
+				if st := c19StoresTo(al, 0); len(st) == 1 {
+					if _, isPhi := st[0].(*ssa.Phi); !isPhi {
+						return w.eval(st[0], d+1)
+					}
 				}
-				idx = i
 			}
 		}
-		if idx < 0 || idx >= len(x.Edges) {
+	case *ssa.Phi:
+		if e := w.phiEdge(x); e != nil {
+			return w.eval(e, d+1)
+		}
+		return false, false
+	case *ssa.BinOp:
+		if (x.Op == token.EQL || x.Op == token.NEQ) && types.Identical(x.X.Type().Underlying(), types.Typ[types.Bool]) {
+			if id, neg, ok := w.atom(w, v); ok {
+				return w.val[id] != neg, true
+			}
+			a, ok1 := w.eval(x.X, d+1)
+			b, ok2 := w.eval(x.Y, d+1)
+			if ok1 && ok2 {
+				return (a == b) == (x.Op == token.EQL), true
+			}
 			return false, false
 		}
-		return w.eval(x.Edges[idx], d+1)
 	}
-	if id, neg, ok := w.atom(v); ok {
+	if id, neg, ok := w.atom(w, v); ok {
 		return w.val[id] != neg, true
+	}
+	if call, ok := v.(*ssa.Call); ok {
+		return w.evalCall(call)
+	}
+	// x == nil / x != nil for a pointer that the path walked so far determines (nil, or the address of a variable)
+	if x, neg, ok := c19NilCmp(v); ok {
+		if isNil, known := w.nilness(x, 0); known {
+			return isNil != neg, true
+		}
+	}
+	return false, false
+}
+
+// nilness resolves a pointer-like value along the walked path: nil constant, or something that cannot be nil.
+func (w *c19Walker) nilness(v ssa.Value, d int) (isNil, known bool) {
+	if d > 6 {
+		return false, false
+	}
+	v = an.Unwrap(v)
+	switch x := v.(type) {
+	case *ssa.Const:
+		if x.Value == nil {
+			return true, true
+		}
+	case *ssa.Alloc, *ssa.MakeClosure, *ssa.MakeMap, *ssa.MakeSlice, *ssa.MakeChan, *ssa.Function, *ssa.FieldAddr, *ssa.IndexAddr:
+		return false, true
+	case *ssa.Phi:
+		if e := w.phiEdge(x); e != nil {
+			return w.nilness(e, d+1)
+		}
+	}
+	return false, false
+}
+
+// evalCall follows a boolean in-package function (a condition extracted into a helper): the callee is walked
+// under the same valuation with its parameters bound to the arguments; the call is decided when every path
+// returns the same truth value.
+func (w *c19Walker) evalCall(call *ssa.Call) (bool, bool) {
+	if w.depth >= 2 || call.Call.IsInvoke() {
+		return false, false
+	}
+	var callee *ssa.Function
+	if os := w.origins(call.Call.Value); len(os) == 1 {
+		switch f := os[0].(type) {
+		case *ssa.Function:
+			callee = f
+		case *ssa.MakeClosure: // free variables resolve through c19Cell / c19Binding
+			callee, _ = f.Fn.(*ssa.Function)
+		}
+	}
+	callee = an.Orig(callee)
+	if callee == nil || len(callee.Blocks) == 0 || callee.Pkg == nil || callee.Pkg != call.Parent().Pkg ||
+		len(callee.Params) != len(call.Call.Args) || callee.Signature.Results().Len() != 1 ||
+		!types.Identical(callee.Signature.Results().At(0).Type().Underlying(), types.Typ[types.Bool]) {
+		return false, false
+	}
+	sub := &c19Walker{atom: w.atom, pre: w.pre, val: w.val, depth: w.depth + 1, bind: map[*ssa.Parameter]ssa.Value{}, unknown: map[*ssa.If]bool{}}
+	for k, v := range w.bind {
+		sub.bind[k] = v
+	}
+	for i, p := range callee.Params {
+		sub.bind[p] = call.Call.Args[i]
+	}
+	sub.ret = func(r *ssa.Return, sw *c19Walker) string {
+		vals := c19RetVals(r)
+		if len(vals) != 1 {
+			return "?"
+		}
+		if b, ok := sw.eval(vals[0], 0); ok {
+			if b {
+				return "true"
+			}
+			return "false"
+		}
+		return "?"
+	}
+	sub.run(callee.Blocks[0], nil)
+	switch {
+	case c19Is1(sub.out, "true"):
+		return true, true
+	case c19Is1(sub.out, "false"):
+		return false, true
 	}
 	return false, false
 }
@@ -906,8 +1394,9 @@ func (w *c19Walker) run(start, enteredFrom *ssa.BasicBlock) {
 }
 
 func (w *c19Walker) walk(b, from *ssa.BasicBlock, first bool) {
-	if len(w.path) > 200 {
-		w.out["?"] = true
+	w.steps++
+	if len(w.path) > 200 || w.steps > 400000 {
+		w.out["?too many paths"] = true
 		return
 	}
 	for _, p := range w.path {
@@ -991,13 +1480,18 @@ func c19NilCmp(v ssa.Value) (x ssa.Value, neg bool, ok bool) {
 
 // c19EmptyCmp decodes a comparison of len(list) with a constant that is true exactly for the empty
 // list (neg=false) or exactly for the non-empty lists (neg=true); anything else is not an atom.
-func c19EmptyCmp(v ssa.Value, list ssa.Value) (neg bool, ok bool) {
+func c19EmptyCmp(v ssa.Value, list ssa.Value, w *c19Walker) (neg bool, ok bool) {
+	return c19EmptyCmpF(v, func(la ssa.Value) bool { return w.only(la, list) })
+}
+
+// c19EmptyCmpF is c19EmptyCmp with the list recognised by a predicate.
+func c19EmptyCmpF(v ssa.Value, isList func(ssa.Value) bool) (neg bool, ok bool) {
 	bin, isBin := v.(*ssa.BinOp)
 	if !isBin {
 		return false, false
 	}
 	op, x, y := bin.Op, bin.X, bin.Y
-	if la := c19LenArg(y); la != nil && c19Only(la, list) {
+	if la := c19LenArg(y); la != nil && isList(la) {
 		x, y = y, x
 		switch op {
 		case token.LSS:
@@ -1011,7 +1505,7 @@ func c19EmptyCmp(v ssa.Value, list ssa.Value) (neg bool, ok bool) {
 		}
 	}
 	la := c19LenArg(x)
-	if la == nil || !c19Only(la, list) {
+	if la == nil || !isList(la) {
 		return false, false
 	}
 	k, isK := an.ConstInt(y)
@@ -1027,25 +1521,336 @@ func c19EmptyCmp(v ssa.Value, list ssa.Value) (neg bool, ok bool) {
 	return false, false
 }
 
+// c19Carrier is the variable in which a failing result is kept for the code after the result loop: a
+// forkjoin.Result variable declared outside the loop, or a slice of results (loop-carried value or variable).
+type c19Carrier struct {
+	alloc *ssa.Alloc // Result variable
+	phi   *ssa.Phi   // slice of results / pointer to a result kept in a loop-carried register (phi in the loop header)
+	cell  *ssa.Alloc // slice / pointer kept in a variable cell
+	ptr   bool       // phi / cell holds a pointer to a copy of a result
+}
+
+func (k *c19Carrier) same(o *c19Carrier) bool {
+	return k.alloc == o.alloc && k.phi == o.phi && k.cell == o.cell && k.ptr == o.ptr
+}
+
+// c19ResultKey: key names field `name` of forkjoin.Result.
+func c19ResultKey(key, name string) bool {
+	return strings.HasPrefix(key, c19FJ+".Result") && strings.HasSuffix(key, "."+name)
+}
+
+// c19SameElem: two addresses denote the same variable / the same constant element of the same slice.
+func c19SameElem(a, b ssa.Value) bool {
+	if a == b {
+		return true
+	}
+	x, ok1 := a.(*ssa.IndexAddr)
+	y, ok2 := b.(*ssa.IndexAddr)
+	if !ok1 || !ok2 || an.Unwrap(x.X) != an.Unwrap(y.X) {
+		return false
+	}
+	i, okI := an.ConstInt(x.Index)
+	j, okJ := an.ConstInt(y.Index)
+	return okI && okJ && i == j
+}
+
+// recordOf decides whether slice value v was built from results of the loop only (nil / empty / append of
+// such a slice with loop results / literal of loop results). holdsCur reports whether the value certainly
+// contains the result of the current iteration (given the walker's path for resolving phis).
+func (l c19Loop) sliceOfResults(v ssa.Value, seen map[ssa.Value]bool) bool {
+	v = an.Unwrap(v)
+	if seen[v] {
+		return true
+	}
+	seen[v] = true
+	switch x := v.(type) {
+	case *ssa.Const:
+		return x.Value == nil
+	case *ssa.MakeSlice:
+		n, ok := an.ConstInt(x.Len)
+		return ok && n == 0
+	case *ssa.Phi:
+		for _, e := range x.Edges {
+			if !l.sliceOfResults(e, seen) {
+				return false
+			}
+		}
+		return true
+	case *ssa.Slice:
+		if al, ok := x.X.(*ssa.Alloc); ok { // literal backing array
+			if elems, ok := c19SliceLit(x); ok {
+				_ = al
+				for _, e := range elems {
+					if !c19Only(e, l.elem) {
+						return false
+					}
+				}
+				return true
+			}
+			return false
+		}
+		return l.sliceOfResults(x.X, seen)
+	case *ssa.UnOp:
+		if x.Op == token.MUL {
+			cell := c19Cell(x.X)
+			if al, ok := cell.(*ssa.Alloc); ok {
+				st := c19StoresTo(al, 0)
+				for _, sv := range st {
+					if !l.sliceOfResults(sv, seen) {
+						return false
+					}
+				}
+				return true
+			}
+		}
+	case *ssa.Call:
+		if b, ok := x.Call.Value.(*ssa.Builtin); ok && b.Name() == "append" && len(x.Call.Args) == 2 {
+			if !l.sliceOfResults(x.Call.Args[0], seen) {
+				return false
+			}
+			elems, ok := c19SliceLit(x.Call.Args[1])
+			if !ok {
+				return l.sliceOfResults(x.Call.Args[1], seen)
+			}
+			for _, e := range elems {
+				if !c19Only(e, l.elem) {
+					return false
+				}
+			}
+			return true
+		}
+	}
+	return false
+}
+
+// holdsCur: slice value v, resolved along the walker's path, was just built with the current result in it.
+func (l c19Loop) holdsCur(v ssa.Value, w *c19Walker, d int) bool {
+	if d > 8 {
+		return false
+	}
+	v = an.Unwrap(v)
+	switch x := v.(type) {
+	case *ssa.Phi:
+		if e := w.phiEdge(x); e != nil {
+			return l.holdsCur(e, w, d+1)
+		}
+	case *ssa.Slice:
+		if elems, ok := c19SliceLit(x); ok {
+			for _, e := range elems {
+				if c19Only(e, l.elem) {
+					return true
+				}
+			}
+		}
+	case *ssa.Call:
+		if b, ok := x.Call.Value.(*ssa.Builtin); ok && b.Name() == "append" && len(x.Call.Args) == 2 && l.inLoop(x.Block()) {
+			if elems, ok := c19SliceLit(x.Call.Args[1]); ok {
+				for _, e := range elems {
+					if c19Only(e, l.elem) {
+						return true
+					}
+				}
+			}
+		}
+	}
+	return false
+}
+
+// phiEdge returns the edge of phi selected by the path walked so far (nil if its block is not on the path).
+func (w *c19Walker) phiEdge(x *ssa.Phi) ssa.Value {
+	pred := w.from[x.Block()]
+	if pred == nil {
+		return nil
+	}
+	idx := -1
+	for i, p := range x.Block().Preds {
+		if p == pred {
+			if idx >= 0 {
+				return nil
+			}
+			idx = i
+		}
+	}
+	if idx < 0 || idx >= len(x.Edges) {
+		return nil
+	}
+	return x.Edges[idx]
+}
+
+// carrierOf recognises `return X.Output, X.Err` for a variable X that is kept across iterations.
+// status: "" recognised, "unknown" an Err field of some result kept in a form that is not followed, "none" otherwise.
+func (l c19Loop) carrierOf(vals []ssa.Value) (*c19Carrier, string) {
+	kE, bE, okE := c19FieldRead(vals[1])
+	if !okE || !c19ResultKey(kE, "Err") {
+		return nil, "none"
+	}
+	kO, bO, okO := c19FieldRead(vals[0])
+	if !okO || !c19ResultKey(kO, "Output") || !c19SameElem(bO, bE) {
+		return nil, "none"
+	}
+	if bE == l.elem {
+		return nil, "none"
+	}
+	switch x := bE.(type) {
+	case *ssa.Const:
+		if x.Value == nil {
+			return nil, "never" // a nil pointer that is never assigned
+		}
+	case *ssa.Alloc:
+		if l.perIteration(x) {
+			return nil, "none"
+		}
+		return &c19Carrier{alloc: x}, ""
+	case *ssa.Phi, *ssa.UnOp:
+		// a pointer to a copy of a result: nil, or a variable declared in the loop that only ever holds the
+		// result of its iteration
+		if _, isPtr := x.Type().Underlying().(*types.Pointer); !isPtr {
+			return nil, "unknown"
+		}
+		for _, o := range c19Origins(x) {
+			if an.IsNilConst(o) {
+				continue
+			}
+			if !l.copyOfCur(o) {
+				return nil, "unknown"
+			}
+		}
+		if ph, ok := x.(*ssa.Phi); ok && ph.Block() == l.hdr {
+			return &c19Carrier{phi: ph, ptr: true}, ""
+		}
+		if ld, ok := x.(*ssa.UnOp); ok && ld.Op == token.MUL {
+			if al, ok := c19Cell(ld.X).(*ssa.Alloc); ok && !l.perIteration(al) {
+				return &c19Carrier{cell: al, ptr: true}, ""
+			}
+		}
+		return nil, "unknown"
+	case *ssa.IndexAddr:
+		if _, isK := an.ConstInt(x.Index); !isK {
+			return nil, "unknown"
+		}
+		sv := an.Unwrap(x.X)
+		if k, isK := sv.(*ssa.Const); isK && k.Value == nil {
+			return nil, "never" // a nil slice that is never appended to
+		}
+		if !l.sliceOfResults(sv, map[ssa.Value]bool{}) {
+			return nil, "unknown"
+		}
+		switch y := sv.(type) {
+		case *ssa.Phi:
+			if y.Block() == l.hdr {
+				return &c19Carrier{phi: y}, ""
+			}
+		case *ssa.UnOp:
+			if y.Op == token.MUL {
+				if al, ok := c19Cell(y.X).(*ssa.Alloc); ok && !l.inLoop(al.Block()) {
+					return &c19Carrier{cell: al}, ""
+				}
+			}
+		}
+		return nil, "unknown"
+	}
+	return nil, "unknown"
+}
+
+// copyOfCur: v is the address of a variable declared inside the loop that only ever holds the result of its
+// own iteration.
+func (l c19Loop) copyOfCur(v ssa.Value) bool {
+	al, ok := an.Unwrap(v).(*ssa.Alloc)
+	return ok && l.perIteration(al) && c19HoldsOnly(al, l.elem)
+}
+
+// ptrHoldsCur: pointer value v, resolved along the walker's path, points to a copy of the current result.
+func (l c19Loop) ptrHoldsCur(v ssa.Value, w *c19Walker, d int) bool {
+	if d > 8 {
+		return false
+	}
+	v = an.Unwrap(v)
+	if ph, ok := v.(*ssa.Phi); ok {
+		if e := w.phiEdge(ph); e != nil {
+			return l.ptrHoldsCur(e, w, d+1)
+		}
+		return false
+	}
+	if !l.copyOfCur(v) {
+		return false
+	}
+	// the copy was made in this iteration
+	for _, pb := range w.path {
+		if pb == v.(*ssa.Alloc).Block() {
+			return true
+		}
+	}
+	return false
+}
+
+// recorded: on the iteration path just walked (ending with the jump back to the loop header) the carrier
+// received the current result.
+func (l c19Loop) recorded(k *c19Carrier, w *c19Walker) bool {
+	lastStore := func(al *ssa.Alloc) ssa.Value {
+		var last ssa.Value
+		for _, pb := range w.path {
+			for _, in := range pb.Instrs {
+				if st, ok := in.(*ssa.Store); ok && c19Cell(st.Addr) == ssa.Value(al) {
+					last = st.Val
+				}
+			}
+		}
+		return last
+	}
+	switch {
+	case k.alloc != nil:
+		v := lastStore(k.alloc)
+		return v != nil && c19Only(v, l.elem)
+	case k.cell != nil:
+		v := lastStore(k.cell)
+		if k.ptr {
+			return v != nil && l.ptrHoldsCur(v, w, 0)
+		}
+		return v != nil && l.holdsCur(v, w, 0)
+	case k.phi != nil:
+		if len(w.path) == 0 {
+			return false
+		}
+		latch := w.path[len(w.path)-1]
+		for i, p := range l.hdr.Preds {
+			if p == latch && i < len(k.phi.Edges) {
+				if k.ptr {
+					return l.ptrHoldsCur(k.phi.Edges[i], w, 0)
+				}
+				return l.holdsCur(k.phi.Edges[i], w, 0)
+			}
+		}
+	}
+	return false
+}
+
+func c19HasUnsure(m map[string]bool) string {
+	for k := range m {
+		if strings.HasPrefix(k, "?") {
+			return k
+		}
+	}
+	return ""
+}
+
 func c19Y2(c *rt.Ctx) {
 	s := c19Resolve(c)
-	c19ForkedList(c, s)
 	run := s.run
 	l := c19ResultLoop(c, s)
 
 	// atoms: 0 ctx.Err()==nil, 1 res.Err==nil, 2 isSuccessFunc(res.Output)
-	atom := func(v ssa.Value) (int, bool, bool) {
+	atom := func(w *c19Walker, v ssa.Value) (int, bool, bool) {
 		if x, neg, ok := c19NilCmp(v); ok {
-			if c19IsCtxErr(x, s.ctx) {
+			if s.isCtxErr(w, x) {
 				return 0, neg, true
 			}
-			if l.resField(x, "Err") {
+			if l.resField(w, x, "Err") {
 				return 1, neg, true
 			}
 			return 0, false, false
 		}
 		if call, ok := v.(*ssa.Call); ok && !call.Call.IsInvoke() && call.Call.StaticCallee() == nil && len(call.Call.Args) == 1 &&
-			c19Has(call.Call.Value, s.isSucces) && l.resField(call.Call.Args[0], "Output") {
+			s.has(w, call.Call.Value, s.isSucces) && l.resField(w, call.Call.Args[0], "Output") {
 			return 2, false, true
 		}
 		return 0, false, false
@@ -1059,26 +1864,7 @@ func c19Y2(c *rt.Ctx) {
 	}
 
 	// ---- after the loop
-	var failSlot *ssa.Alloc // the variable whose Output/Err are returned as the failure
-	failureOf := func(vals []ssa.Value) *ssa.Alloc {
-		key, base, ok := c19FieldRead(vals[1])
-		if !ok || !strings.HasPrefix(key, c19FJ+".Result") || !strings.HasSuffix(key, ".Err") {
-			return nil
-		}
-		al, isAl := base.(*ssa.Alloc)
-		if !isAl || l.inLoop(al.Block()) {
-			return nil
-		}
-		if k2, b2, ok2 := c19FieldRead(vals[0]); !ok2 || !strings.HasSuffix(k2, ".Output") || b2 != base {
-			return nil
-		}
-		for _, ref := range *al.Referrers() {
-			if st, ok := ref.(*ssa.Store); ok && st.Addr == ssa.Value(al) && l.inLoop(st.Block()) && c19Only(st.Val, l.elem) {
-				return al
-			}
-		}
-		return nil
-	}
+	var carrier *c19Carrier // the variable whose Output/Err are returned as the failure
 	var failPos, ctxPos token.Pos
 	retAfter := func(r *ssa.Return, w *c19Walker) string {
 		vals := c19RetVals(r)
@@ -1086,24 +1872,41 @@ func c19Y2(c *rt.Ctx) {
 			return "other"
 		}
 		switch {
-		case c19IsCtxErr(vals[1], s.ctx):
+		case s.isCtxErr(nil, vals[1]):
 			ctxPos = posOf(r)
 			return "ctx"
 		case an.IsNilConst(vals[1]):
 			return "nil-error"
 		}
-		if al := failureOf(vals); al != nil {
-			failSlot, failPos = al, posOf(r)
+		k, st := l.carrierOf(vals)
+		switch {
+		case k != nil && (carrier == nil || carrier.same(k)):
+			carrier, failPos = k, posOf(r)
 			return "failure"
+		case k != nil:
+			return "?failure kept in more than one variable"
+		case st == "unknown":
+			failPos = posOf(r)
+			return "?failure kept in a form that is not followed"
+		case st == "never":
+			failPos = posOf(r)
+			return "failure variable that never receives a result"
 		}
 		if call, ok := an.Unwrap(vals[1]).(*ssa.Call); ok && an.Static("app/errors.New")(&call.Call) {
 			return "internal-error"
 		}
 		return "other"
 	}
+	// after the loop there is no current result: only the context test is decided
+	ctxAtom := func(w *c19Walker, v ssa.Value) (int, bool, bool) {
+		if id, neg, ok := atom(w, v); ok && id == 0 {
+			return id, neg, true
+		}
+		return 0, false, false
+	}
 	afterOut := map[bool]map[string]bool{}
 	for _, ctxNil := range []bool{true, false} {
-		w := &c19Walker{atom: atom, val: []bool{ctxNil, false, false}, ret: retAfter,
+		w := &c19Walker{atom: ctxAtom, val: []bool{ctxNil, false, false}, ret: retAfter,
 			stop: func(b *ssa.BasicBlock, _ *c19Walker) (string, bool) {
 				return "re-enters loop", b == l.hdr || l.inLoop(b)
 			}}
@@ -1114,8 +1917,12 @@ func c19Y2(c *rt.Ctx) {
 	if !ctxPos.IsValid() {
 		ctxPos = exitPos
 	}
-	c.Check("runForkJoin after-loop context test", ctxPos, c19Is1(afterOut[false], "ctx"),
-		"with the caller's context cancelled the code after the result loop yields "+c19Set(afterOut[false])+" instead of returning ctx.Err()")
+	if u := c19HasUnsure(afterOut[false]); u != "" && !afterOut[false]["nil-error"] {
+		c.Unsure("runForkJoin after-loop context test", ctxPos, "cannot follow the code after the result loop: "+u)
+	} else {
+		c.Check("runForkJoin after-loop context test", ctxPos, c19Is1(afterOut[false], "ctx"),
+			"with the caller's context cancelled the code after the result loop yields "+c19Set(afterOut[false])+" instead of returning ctx.Err()")
+	}
 	okAfter := afterOut[true]["failure"]
 	for k := range afterOut[true] {
 		if k != "failure" && k != "internal-error" {
@@ -1125,9 +1932,13 @@ func c19Y2(c *rt.Ctx) {
 	if !failPos.IsValid() {
 		failPos = exitPos
 	}
-	c.Check("runForkJoin after-loop failure return", failPos, okAfter,
-		"with a live context the code after the result loop yields "+c19Set(afterOut[true])+
-			": it must return output and error of the failing result recorded inside the loop (nil error or another value hides that all nodes failed)")
+	if u := c19HasUnsure(afterOut[true]); u != "" && !afterOut[true]["nil-error"] && !afterOut[true]["ctx"] && !afterOut[true]["other"] {
+		c.Unsure("runForkJoin after-loop failure return", failPos, "cannot decide what is returned after the result loop: "+strings.TrimPrefix(u, "?"))
+	} else {
+		c.Check("runForkJoin after-loop failure return", failPos, okAfter,
+			"with a live context the code after the result loop yields "+c19Set(afterOut[true])+
+				": it must return output and error of the failing result recorded inside the loop (nil error or another value hides that all nodes failed)")
+	}
 
 	// ---- inside the loop, per received result
 	var succPos, firstRet token.Pos
@@ -1140,10 +1951,10 @@ func c19Y2(c *rt.Ctx) {
 			return "other return"
 		}
 		switch {
-		case an.IsNilConst(vals[1]) && l.resField(vals[0], "Output"):
+		case an.IsNilConst(vals[1]) && l.resField(w, vals[0], "Output"):
 			succPos = posOf(r)
 			return "success"
-		case c19IsCtxErr(vals[1], s.ctx):
+		case s.isCtxErr(nil, vals[1]):
 			return "ctx"
 		case an.IsNilConst(vals[1]):
 			return "nil-error return of something else than res.Output"
@@ -1152,21 +1963,12 @@ func c19Y2(c *rt.Ctx) {
 	}
 	stopIn := func(b *ssa.BasicBlock, w *c19Walker) (string, bool) {
 		if b == l.hdr {
-			if failSlot != nil {
-				for _, pb := range w.path {
-					for _, in := range pb.Instrs {
-						if st, ok := in.(*ssa.Store); ok && st.Addr == ssa.Value(failSlot) && c19Only(st.Val, l.elem) {
-							return "next result (failure recorded)", true
-						}
-					}
-				}
+			if carrier != nil && !l.recorded(carrier, w) {
 				return "next result (failure NOT recorded)", true
 			}
 			return "next result (failure recorded)", true
 		}
-		if !l.inLoop(b) {
-			return "break", true
-		}
+		// leaving the loop by break: what happens to this result is decided by the code after the loop
 		return "", false
 	}
 	type row struct {
@@ -1195,7 +1997,11 @@ func c19Y2(c *rt.Ctx) {
 	sOK, sWhy := true, ""
 	cOK, cWhy := true, ""
 	fOK, fWhy := true, ""
+	unsure := ""
 	for _, r := range rows {
+		if u := c19HasUnsure(r.out); u != "" {
+			unsure = "for a result with [" + desc(r.val) + "] the loop body cannot be followed (" + strings.TrimPrefix(u, "?") + ")"
+		}
 		switch {
 		case !r.val[0]:
 			if !c19Is1(r.out, "ctx") {
@@ -1222,6 +2028,10 @@ func c19Y2(c *rt.Ctx) {
 	if !succPos.IsValid() {
 		succPos = loopPos
 	}
+	if unsure != "" {
+		c.Unsure("runForkJoin result loop", loopPos, unsure)
+		return
+	}
 	c.Check("runForkJoin success return", succPos, sOK, sWhy)
 	c.Check("runForkJoin in-loop context test", loopPos, cOK, cWhy)
 	c.Check("runForkJoin in-loop failure handling", loopPos, fOK, fWhy)
@@ -1230,38 +2040,38 @@ func c19Y2(c *rt.Ctx) {
 
 func c19Y3(c *rt.Ctx) {
 	s := c19Resolve(c)
-	c19ForkedList(c, s)
 	p := s.provide
-	var mc ssa.Value
-	for _, in := range an.Instrs(p, false) {
-		if m, ok := in.(*ssa.MakeClosure); ok && m.Fn == ssa.Value(s.run) {
-			if mc != nil {
-				c.Bail("runForkJoin closure is created more than once")
-			}
-			mc = m
-		}
-	}
-	if mc == nil {
-		c.Bail("runForkJoin closure not created in provide")
+	for _, ci := range s.strayCalls {
+		c.Bad("provide runForkJoin call", ci.Pos(), "runForkJoin is deferred, started as a goroutine or called from a nested function")
 	}
 	var prim, fbs []*ssa.Call
-	for _, in := range an.Instrs(p, true) {
-		ci, ok := in.(ssa.CallInstruction)
-		if !ok || !c19Only(ci.Common().Value, mc) {
-			continue
-		}
-		call, isCall := ci.(*ssa.Call)
-		if !isCall || call.Parent() != p || len(call.Call.Args) != 1 {
-			c.Bad("provide runForkJoin call", ci.Pos(), "runForkJoin is deferred, started as a goroutine or called from a nested function")
-			continue
-		}
+	for _, call := range s.runCalls {
+		arg := call.Call.Args[s.listIdx]
 		switch {
-		case c19Only(call.Call.Args[0], s.clients):
+		case c19Only(arg, s.clients):
 			prim = append(prim, call)
-		case c19Only(call.Call.Args[0], s.fallbacks):
+		case c19Only(arg, s.fallbacks):
 			fbs = append(fbs, call)
 		default:
-			c.Bad("provide runForkJoin call", call.Pos(), "runForkJoin is run over something other than the clients or the fallbacks parameter")
+			// part of one of the lists (clients[:1], ...) is a violation; a list of unknown provenance is not decided
+			partial := false
+			for _, o := range c19Origins(arg) {
+				for i := 0; i < 4; i++ {
+					sl, ok := o.(*ssa.Slice)
+					if !ok {
+						break
+					}
+					o = an.Unwrap(sl.X)
+				}
+				if o == ssa.Value(s.clients) || o == ssa.Value(s.fallbacks) || an.IsNilConst(o) {
+					partial = true
+				}
+			}
+			if partial {
+				c.Bad("provide runForkJoin call", call.Pos(), "runForkJoin is run over something other than the clients or the fallbacks parameter")
+			} else {
+				c.Unsure("provide runForkJoin call", call.Pos(), "runForkJoin is run over a list whose relation to the clients / fallbacks parameters is not followed")
+			}
 		}
 	}
 	if len(prim) != 1 {
@@ -1284,17 +2094,17 @@ func c19Y3(c *rt.Ctx) {
 	}
 
 	// atoms: 0 err==nil, 1 len(fallbacks)==0, 2.. classifier(err)
-	atom := func(v ssa.Value) (int, bool, bool) {
+	atom := func(w *c19Walker, v ssa.Value) (int, bool, bool) {
 		if x, neg, ok := c19NilCmp(v); ok {
-			if c19Only(x, err) {
+			if w.only(x, err) {
 				return 0, neg, true
 			}
 			return 0, false, false
 		}
-		if neg, ok := c19EmptyCmp(v, s.fallbacks); ok {
+		if neg, ok := c19EmptyCmp(v, s.fallbacks, w); ok {
 			return 1, neg, true
 		}
-		if call, ok := v.(*ssa.Call); ok && call.Call.StaticCallee() != nil && len(call.Call.Args) == 1 && c19Only(call.Call.Args[0], err) {
+		if call, ok := v.(*ssa.Call); ok && call.Call.StaticCallee() != nil && len(call.Call.Args) == 1 && w.only(call.Call.Args[0], err) {
 			n := an.FuncName(call.Call.StaticCallee())
 			for i, k := range c19Classifiers {
 				if n == k {
@@ -1339,6 +2149,12 @@ func c19Y3(c *rt.Ctx) {
 		}
 		return strings.Join(parts, ", ")
 	}
+	y3Unsure := ""
+	for _, r := range rows {
+		if u := c19HasUnsure(r.out); u != "" {
+			y3Unsure = "the code between the primary run and the fallback run cannot be followed under [" + desc(r.val) + "] (" + strings.TrimPrefix(u, "?") + ")"
+		}
+	}
 	gOK, gWhy := true, ""
 	eOK, eWhy := true, ""
 	kOK := make([]bool, len(c19Classifiers))
@@ -1371,10 +2187,14 @@ func c19Y3(c *rt.Ctx) {
 			}
 		}
 	}
-	c.Check("provide fallback guards (err != nil, len(fallbacks) != 0)", F.Pos(), gOK, gWhy)
-	c.Check("provide fallback entered only through the unavailability classifiers", F.Pos(), eOK, eWhy)
-	for i, k := range c19Classifiers {
-		c.Check("provide fallback classifier "+k[strings.LastIndex(k, ".")+1:], F.Pos(), kOK[i], kWhy[i])
+	if y3Unsure != "" {
+		c.Unsure("provide fallback guards (err != nil, len(fallbacks) != 0)", F.Pos(), y3Unsure)
+	} else {
+		c.Check("provide fallback guards (err != nil, len(fallbacks) != 0)", F.Pos(), gOK, gWhy)
+		c.Check("provide fallback entered only through the unavailability classifiers", F.Pos(), eOK, eWhy)
+		for i, k := range c19Classifiers {
+			c.Check("provide fallback classifier "+k[strings.LastIndex(k, ".")+1:], F.Pos(), kOK[i], kWhy[i])
+		}
 	}
 
 	// what is returned
@@ -1403,7 +2223,7 @@ func c19Y3(c *rt.Ctx) {
 	c19Submit_(c, s)
 }
 
-func c19Submit_(c *rt.Ctx, s c19Shape) {
+func c19Submit_(c *rt.Ctx, s *c19Shape) {
 	sub := c.Fn(c19Submit)
 	if len(sub.Params) != 5 {
 		c.Bail("submit: expected 5 parameters, found %d", len(sub.Params))
@@ -1507,8 +2327,22 @@ func c19Y4(c *rt.Ctx) {
 			c.Good(name+" (node-management helper)", m.Pos(), why)
 			continue
 		}
-		good, why := c19APIMethod(m, isList)
-		c.Check(name+" via provide/submit", m.Pos(), good, why)
+		st, why, delegate := c19APIMethod(m, isList)
+		switch st {
+		case rt.OK:
+			if delegate != nil {
+				// a helper that was verified to use the receiver's lists only for its single provide/submit call
+				for _, g := range an.Closure(delegate) {
+					owned[g] = true
+				}
+				why = "through " + an.FuncName(delegate)
+			}
+			c.Good(name+" via provide/submit", m.Pos(), why)
+		case rt.Undecided:
+			c.Unsure(name+" via provide/submit", m.Pos(), why)
+		default:
+			c.Bad(name+" via provide/submit", m.Pos(), why)
+		}
 	}
 
 	// nothing outside multi's methods reads the node lists
@@ -1538,19 +2372,45 @@ func c19Y4(c *rt.Ctx) {
 	c.Check("only multi's methods read multi.clients / multi.fallbacks", sPos, sOK, sWhy)
 }
 
-// c19APIMethod decides the Y4 obligation for one beacon API method of multi.
-func c19APIMethod(m *ssa.Function, isList func(string) bool) (bool, string) {
-	if len(m.Params) == 0 {
-		return false, "method without receiver parameter"
+// c19ListUse reports whether fn (or a literal of it) touches multi.clients / multi.fallbacks by an instruction
+// other than those in except.
+func c19ListUse(fn *ssa.Function, isList func(string) bool, except ...ssa.Instruction) bool {
+	for _, in := range an.Instrs(fn, true) {
+		skip := false
+		for _, e := range except {
+			if in == e {
+				skip = true
+			}
+		}
+		if skip {
+			continue
+		}
+		switch x := in.(type) {
+		case *ssa.Field:
+			if isList(an.FieldKey(x.X.Type(), x.Field)) {
+				return true
+			}
+		case *ssa.FieldAddr:
+			if isList(an.FieldKey(x.X.Type(), x.Field)) {
+				return true
+			}
+		}
 	}
-	recv := m.Params[0]
-	calls := an.Calls(m, an.Static(c19Provide, c19Submit), true)
+	return false
+}
+
+// c19Frame decides, for a function fn working on the multi value recv (its receiver, or the parameter through
+// which a method handed its receiver on): fn makes exactly one provide/submit call, with recv's clients and
+// fallbacks, uses the lists for nothing else and returns the call's outcome. It returns the call.
+func c19Frame(fn *ssa.Function, recv ssa.Value, isList func(string) bool) (pc *ssa.Call, st, why string) {
+	bad := func(w string) (*ssa.Call, string, string) { return nil, rt.Violation, w }
+	calls := an.Calls(fn, an.Static(c19Provide, c19Submit), true)
 	if len(calls) != 1 {
-		return false, fmt.Sprintf("not a listed helper, and it makes %d provide/submit calls instead of exactly one: the node lists are used outside the fork-join/fallback mechanism", len(calls))
+		return bad(fmt.Sprintf("not a listed helper, and it makes %d provide/submit calls instead of exactly one: the node lists are used outside the fork-join/fallback mechanism", len(calls)))
 	}
 	pc, isCall := calls[0].(*ssa.Call)
-	if !isCall || pc.Parent() != m {
-		return false, "provide/submit is deferred, started as a goroutine or called from a nested function"
+	if !isCall || pc.Parent() != fn {
+		return bad("provide/submit is deferred, started as a goroutine or called from a nested function")
 	}
 	isSubmit := an.FuncName(pc.Call.StaticCallee()) == c19Submit
 	a := pc.Call.Args
@@ -1570,40 +2430,87 @@ func c19APIMethod(m *ssa.Function, isList func(string) bool) (bool, string) {
 	rdC, okC := argField(a[1], c19Clients)
 	rdF, okF := argField(a[2], c19Fallbk)
 	if !okC {
-		return false, "the primary list handed to provide/submit is not the receiver's clients"
+		return bad("the primary list handed to provide/submit is not the receiver's clients")
 	}
 	if !okF {
-		return false, "the fallback list handed to provide/submit is not the receiver's fallbacks"
+		return bad("the fallback list handed to provide/submit is not the receiver's fallbacks")
 	}
-	// no other use of the node lists in the method or its literals
-	for _, in := range an.Instrs(m, true) {
-		switch x := in.(type) {
-		case *ssa.Field:
-			if isList(an.FieldKey(x.X.Type(), x.Field)) && in != rdC && in != rdF {
-				return false, "the method touches the node lists directly besides handing them to provide/submit"
-			}
-		case *ssa.FieldAddr:
-			if isList(an.FieldKey(x.X.Type(), x.Field)) && in != rdC && in != rdF {
-				return false, "the method touches the node lists directly besides handing them to provide/submit"
-			}
-		}
+	// no other use of the node lists in the function or its literals
+	if c19ListUse(fn, isList, rdC, rdF) {
+		return bad("the method touches the node lists directly besides handing them to provide/submit")
 	}
 	if fa, ok := rdC.(*ssa.FieldAddr); ok && len(*fa.Referrers()) != 1 {
-		return false, "the receiver's clients list is used besides being handed to provide/submit"
+		return bad("the receiver's clients list is used besides being handed to provide/submit")
 	}
 	if fa, ok := rdF.(*ssa.FieldAddr); ok && len(*fa.Referrers()) != 1 {
-		return false, "the receiver's fallbacks list is used besides being handed to provide/submit"
+		return bad("the receiver's fallbacks list is used besides being handed to provide/submit")
 	}
-	// the work function
+	// fn returns the outcome
+	var mAns []ssa.Value
+	var errv ssa.Value = pc
+	if !isSubmit {
+		mAns, errv = []ssa.Value{c19Extract(pc, 0)}, c19Extract(pc, 1)
+	}
+	if st, why := c19ReturnsOutcome(fn, pc, c19Src{mAns, errv}, "provide/submit"); st != rt.OK {
+		return nil, st, why
+	}
+	return pc, rt.OK, ""
+}
+
+// c19ReturnsOutcome: every return of fn behind call hands back the call's outcome; returns that cannot follow
+// the call never report success.
+func c19ReturnsOutcome(fn *ssa.Function, call *ssa.Call, src c19Src, what string) (string, string) {
+	nAfter := 0
+	for _, r := range c19Returns(fn) {
+		if !an.Dominates(call, r) {
+			if an.InstrReaches(call, r) {
+				return rt.Undecided, "a return of the method is reachable both with and without the " + what + " call"
+			}
+			// early exit before any node is contacted (argument preparation failed): must not report success
+			vals := c19RetVals(r)
+			if len(vals) > 0 && an.IsNilConst(vals[len(vals)-1]) {
+				return rt.Violation, "the method can return success without contacting a node"
+			}
+			continue
+		}
+		nAfter++
+		if ok, w := c19Outcome(r, src.answers, src.err); !ok {
+			if w == "error" {
+				return rt.Violation, "the method does not return the error of " + what + " (possibly wrapped): a failed call is reported as success"
+			}
+			return rt.Violation, "the method does not return the answer obtained through provide"
+		}
+	}
+	if nAfter == 0 {
+		return rt.Violation, "no return after the " + what + " call"
+	}
+	return rt.OK, ""
+}
+
+// c19WorkFn decides the obligation on the work function wv handed to provide/submit: a function of the package
+// (a literal of one of the owners, or a package-level function) that calls the method `name` of args.client
+// exactly once per execution and returns its outcome.
+func c19WorkFn(wv ssa.Value, owners []*ssa.Function, name string) (string, string) {
+	bad := func(why string) (string, string) { return rt.Violation, why }
+	unsure := func(why string) (string, string) { return rt.Undecided, why }
 	var w *ssa.Function
-	switch x := an.Resolve(a[3]).(type) {
+	switch x := an.Resolve(wv).(type) {
 	case *ssa.MakeClosure:
 		w, _ = x.Fn.(*ssa.Function)
 	case *ssa.Function:
 		w = x
 	}
-	if w == nil || w.Parent() != m || len(w.Params) != 2 {
-		return false, "the work function is not a literal of the method taking (ctx, provideArgs)"
+	if w == nil || len(w.Blocks) == 0 || len(w.Params) != 2 {
+		return unsure("the work function handed to provide/submit cannot be resolved to a function taking (ctx, provideArgs)")
+	}
+	owned := w.Parent() == nil && w.Pkg == owners[0].Pkg && w.Synthetic == ""
+	for _, o := range owners {
+		if w.Parent() == o {
+			owned = true
+		}
+	}
+	if !owned {
+		return unsure("the work function is neither a literal of the method nor a function of the package")
 	}
 	var inv []*ssa.Call
 	for _, in := range an.Instrs(w, true) {
@@ -1613,66 +2520,141 @@ func c19APIMethod(m *ssa.Function, isList func(string) bool) (bool, string) {
 		}
 		call, isCall := ci.(*ssa.Call)
 		if !isCall || call.Parent() != w {
-			return false, "a beacon node method is deferred, started as a goroutine or called from a nested literal inside the work function"
+			return bad("a beacon node method is deferred, started as a goroutine or called from a nested literal inside the work function")
 		}
 		inv = append(inv, call)
 	}
-	if len(inv) != 1 {
-		return false, fmt.Sprintf("the work function makes %d beacon node calls instead of exactly one", len(inv))
+	if len(inv) == 0 {
+		return bad("the work function makes 0 beacon node calls instead of exactly one")
 	}
-	call := inv[0]
-	if call.Call.Method.Name() != m.Name() {
-		return false, "the work function calls " + call.Call.Method.Name() + " instead of the same-named method " + m.Name()
-	}
-	if k, base, ok := c19FieldRead(call.Call.Value); !ok || k != c19ArgCl || !c19HoldsOnly(base, w.Params[1]) {
-		return false, "the beacon node called is not args.client of the work function's own argument"
-	}
-	nres := call.Call.Signature().Results().Len()
-	var wAns []ssa.Value
-	var wErr ssa.Value = call
-	if nres != 1 {
-		for i := 0; i < nres-1; i++ {
-			wAns = append(wAns, c19Extract(call, i))
+	// exactly one call per execution: no call can be followed by another (or by itself)
+	for _, x := range inv {
+		for _, y := range inv {
+			if an.InstrReaches(x, y) {
+				return bad(fmt.Sprintf("the work function makes %d beacon node calls instead of exactly one: a node can be called more than once per request", len(inv)))
+			}
 		}
-		wErr = c19Extract(call, nres-1)
+	}
+	var srcs []c19Src
+	for _, call := range inv {
+		if call.Call.Method.Name() != name {
+			return bad("the work function calls " + call.Call.Method.Name() + " instead of the same-named method " + name)
+		}
+		if k, base, ok := c19FieldRead(call.Call.Value); !ok || k != c19ArgCl || !c19HoldsOnly(base, w.Params[1]) {
+			return bad("the beacon node called is not args.client of the work function's own argument")
+		}
+		nres := call.Call.Signature().Results().Len()
+		src := c19Src{err: call}
+		if nres != 1 {
+			for i := 0; i < nres-1; i++ {
+				src.answers = append(src.answers, c19Extract(call, i))
+			}
+			src.err = c19Extract(call, nres-1)
+		}
+		srcs = append(srcs, src)
 	}
 	wr := c19Returns(w)
 	if len(wr) == 0 {
-		return false, "the work function never returns"
+		return bad("the work function never returns")
 	}
 	for _, r := range wr {
-		if !an.Dominates(call, r) {
-			continue // early exit before the node is called
-		}
-		if ok, what := c19Outcome(r, wAns, wErr); !ok {
-			if what == "error" {
-				return false, "the work function does not return the node's error"
+		var before []c19Src
+		for i, call := range inv {
+			if an.InstrReaches(call, r) {
+				before = append(before, srcs[i])
 			}
-			return false, "the work function does not return the node's answer"
 		}
-	}
-	// the method returns the outcome
-	var mAns []ssa.Value
-	var errv ssa.Value = pc
-	if !isSubmit {
-		mAns, errv = []ssa.Value{c19Extract(pc, 0)}, c19Extract(pc, 1)
-	}
-	mr := c19Returns(m)
-	nAfter := 0
-	for _, r := range mr {
-		if !an.Dominates(pc, r) {
-			continue // early exit before any node is contacted (argument preparation failed)
-		}
-		nAfter++
-		if ok, what := c19Outcome(r, mAns, errv); !ok {
-			if what == "error" {
-				return false, "the method does not return the error of provide/submit (possibly wrapped): a failed call is reported as success"
+		if len(before) == 0 {
+			// exit before the node is called: must not report success
+			vals := c19RetVals(r)
+			if len(vals) > 0 && an.IsNilConst(vals[len(vals)-1]) {
+				return bad("the work function can return success without calling the node")
 			}
-			return false, "the method does not return the answer obtained through provide"
+			continue
+		}
+		if ok, what := c19OutcomeOf(c19RetVals(r), r.Block(), before, 0); !ok {
+			if what == "error" {
+				return bad("the work function does not return the node's error")
+			}
+			return bad("the work function does not return the node's answer")
 		}
 	}
-	if nAfter == 0 {
-		return false, "no return after the provide/submit call"
+	return rt.OK, ""
+}
+
+// c19APIMethod decides the Y4 obligation for one beacon API method of multi: rt.OK, rt.Violation or
+// rt.Undecided (a shape that is not followed) with the reason. When the method reaches provide/submit through
+// an in-package helper to which it hands its receiver, that helper is returned as delegate.
+func c19APIMethod(m *ssa.Function, isList func(string) bool) (st, why string, delegate *ssa.Function) {
+	if len(m.Params) == 0 {
+		return rt.Violation, "method without receiver parameter", nil
 	}
-	return true, ""
+	recv := m.Params[0]
+	if len(an.Calls(m, an.Static(c19Provide, c19Submit), true)) == 0 && !c19ListUse(m, isList) {
+		// the whole receiver handed to an in-package function: the call may have been moved into a helper
+		var dcs []*ssa.Call
+		var idxs []int
+		for _, in := range an.Instrs(m, true) {
+			ci, ok := in.(ssa.CallInstruction)
+			if !ok || ci.Common().IsInvoke() {
+				continue
+			}
+			f := an.Orig(ci.Common().StaticCallee())
+			if f == nil || f.Pkg != m.Pkg || len(f.Blocks) == 0 {
+				continue
+			}
+			for i, a := range ci.Common().Args {
+				if a == ssa.Value(recv) || c19Only(a, recv) || c19HoldsOnly(a, recv) {
+					call, isCall := ci.(*ssa.Call)
+					if !isCall || call.Parent() != m {
+						return rt.Undecided, "the method hands its receiver to " + an.FuncName(f) + " from a nested function / defer / goroutine", nil
+					}
+					dcs, idxs = append(dcs, call), append(idxs, i)
+				}
+			}
+		}
+		if len(dcs) == 1 {
+			dc, h := dcs[0], an.Orig(dcs[0].Call.StaticCallee())
+			if len(h.Params) != len(dc.Call.Args) || h.Signature.Recv() != nil {
+				return rt.Undecided, "the method hands its receiver to " + an.FuncName(h) + ", which is not followed", nil
+			}
+			pc, st, why := c19Frame(h, h.Params[idxs[0]], isList)
+			if st != rt.OK {
+				return st, "through " + an.FuncName(h) + ": " + why, nil
+			}
+			// the work function: a parameter of the helper bound at the method's call, or the helper's own literal
+			wv := an.Resolve(pc.Call.Args[3])
+			owners := []*ssa.Function{m, h}
+			if p, ok := wv.(*ssa.Parameter); ok {
+				for i, q := range h.Params {
+					if q == p {
+						wv = dc.Call.Args[i]
+					}
+				}
+			}
+			if st, why := c19WorkFn(wv, owners, m.Name()); st != rt.OK {
+				return st, why, nil
+			}
+			src := c19Src{err: dc}
+			if n := dc.Call.Signature().Results().Len(); n != 1 {
+				src = c19Src{err: c19Extract(dc, n-1)}
+				for i := 0; i < n-1; i++ {
+					src.answers = append(src.answers, c19Extract(dc, i))
+				}
+			}
+			if st, why := c19ReturnsOutcome(m, dc, src, an.FuncName(h)); st != rt.OK {
+				return st, why, nil
+			}
+			return rt.OK, "", h
+		}
+		if len(dcs) > 1 {
+			return rt.Undecided, "the method hands its receiver to several in-package functions, which are not followed", nil
+		}
+	}
+	pc, st, why := c19Frame(m, recv, isList)
+	if st != rt.OK {
+		return st, why, nil
+	}
+	st, why = c19WorkFn(pc.Call.Args[3], []*ssa.Function{m}, m.Name())
+	return st, why, nil
 }
